@@ -57,6 +57,9 @@ partial def decKvs : Nat → List String → Kvs → Option (Kvs × List String)
   | 0, t, acc => some (acc, t)
   | k + 1, h :: t, acc =>
     match bytesOfHex h, decObj t with
+    -- the real dictionary parser drops an entry whose value is `null` (pdf_obj.rs: "Entries with
+    -- 'null' values are treated as though the entry does not exist"): the graph the converter sees
+    | some _, some (.null, t) => decKvs k t acc
     | some key, some (o, t) => decKvs k t (dictInsert key o acc)
     | _, _ => none
   | _, _, _ => none
@@ -430,11 +433,13 @@ def posNames : List String :=
   ["root-kids", "contents", "contents-elem", "root-resources", "font-value", "font-entry", "encoding",
    "fontdescriptor", "fontfile2", "node-kids", "page-resources", "contents-array", "node-resources", "kid-entry"]
 
-/-- a two-level tree (root 2, page 3, inner node 4, page 5) with the shape at position `pos` -/
-def shapeDoc (pos : Nat) (sh : Shape) : List (Nat × Obj) :=
+/-- a two-level tree (root 2, page 3, inner node 4, page 5); the value at position `pos` is
+    `place target` (value to write at the position, objects it needs), where `target` is the
+    well-formed value the converter expects there -/
+def posDoc (pos : Nat) (place : Obj → Obj × List (Nat × Obj)) : List (Nat × Obj) :=
   let st : Obj := .stream [] ⟨0, 2, [113, 32]⟩
   let sel (p : Nat) (target dflt : Obj) : Obj × List (Nat × Obj) :=
-    if p == pos then shapeObjs 50 target sh else (dflt, [])
+    if p == pos then place target else (dflt, [])
   let ff := sel 8 st (.ref 9 0)
   let descr := mkDict [("Type", nm "FontDescriptor"), ("FontName", nm "ABCDEF+Foo"), ("Flags", .int 32), ("FontFile2", ff.1)]
   let fdv := sel 7 descr (.ref 8 0)
@@ -450,9 +455,9 @@ def shapeDoc (pos : Nat) (sh : Shape) : List (Nat × Obj) :=
   let pres := sel 10 (mkDict [("Font", mkDict [("F2", font0)])]) .null
   let ce := sel 2 st (.ref 9 0)
   let cont : Obj × List (Nat × Obj) :=
-    if pos == 1 then shapeObjs 50 st sh
+    if pos == 1 then place st
     else if pos == 2 then (.arr [.ref 9 0, ce.1, .ref 9 0], ce.2)
-    else if pos == 11 then shapeObjs 50 (.arr [.ref 9 0, .ref 9 0]) sh
+    else if pos == 11 then place (.arr [.ref 9 0, .ref 9 0])
     else (.ref 9 0, [])
   let knode := sel 9 (.arr [.ref 5 0]) (.arr [.ref 5 0])
   -- position 12: the inner node declares its own /Resources (font F3) behind the shape, below a root
@@ -475,6 +480,9 @@ def shapeDoc (pos : Nat) (sh : Shape) : List (Nat × Obj) :=
                ("MediaBox", .arr [.int 0, .int 0, .int 612, .int 792])]),
    (8, descr), (9, st)] ++
   ff.2 ++ fdv.2 ++ enc.2 ++ fe.2 ++ fv.2 ++ rroot.2 ++ pres.2 ++ cont.2 ++ kroot.2 ++ knode.2 ++ nres.2 ++ kent.2
+
+/-- the two-level tree with the reference-chain shape `sh` in front of the value at position `pos` -/
+def shapeDoc (pos : Nat) (sh : Shape) : List (Nat × Obj) := posDoc pos fun target => shapeObjs 50 target sh
 
 /-- does the REAL type checker accept the document with this shape at this position?  Observed with
     the harness: it rejects a chain that loops or dangles under /Kids, /Contents (value, array,
@@ -523,6 +531,102 @@ def longCases (full : Bool) : List (String × String) :=
       if streamPos pos && (match sh with | .direct => true | _ => false) then none else
       let doc := shapeDoc pos sh
       some (s!"{posNames[pos]?.getD "?"}-{sh.name}", encCase (if shapeTC pos sh then "tc" else "any") 1 doc)
+
+/-! ### values of the wrong KIND at every position: other kinds, the container one level up, containers
+     nested in containers, and cycles that run THROUGH containers
+
+  `resolve_chain` only guards chains of pure references.  Every converter that looks behind a
+  reference chain expects one kind of value there (/Kids: array; kid entry: reference to a dictionary;
+  /Contents: stream or array; an ELEMENT of a /Contents array: stream; /Resources, /Font, a font entry,
+  /FontDescriptor: dictionary; /Encoding: name or dictionary; /FontFile2: reference) and must report
+  a located error for (or, for kid entries, skip) anything else WITHOUT descending into it.  A
+  converter that treats "an element is a smaller instance of the same problem" and calls itself on
+  what it finds flattens nested containers and never returns on an array (dictionary) object that
+  contains a reference back to a container on the same path.  The family therefore puts at each
+  of the 14 positions, behind 0-3 links:
+    * every other kind: null, boolean, integer, string, name, empty array, empty dictionary, stream;
+    * the well-formed value `g` of the position wrapped in arrays 1-3 deep (directly nested, and through
+      1, 2, 3, 8, 40 array OBJECTS each holding a reference to the next), mixed with good elements,
+      and wrapped in a dictionary that offers it under every key a converter looks for;
+    * cycles through containers: an array object that lists itself (alone, after a good element,
+      inside a direct array, inside a nested direct array), two and three arrays listing each other,
+      a tail of 1-3 acyclic array objects into a cycle of 1-2 arrays, a cycle array -> link -> link
+      -> array, and the same with dictionaries (self, pair, dictionary <-> array).
+  The oracle needs nothing new: Spec/PageTree never looks inside a value of the wrong kind. -/
+
+structure KV where
+  name : String
+  val : Obj
+  objs : List (Nat × Obj) := []
+deriving Inhabited
+
+/-- a (page-tree-node-like) dictionary that offers `g` under every key a converter looks for -/
+def dictAround (g : Obj) : Obj :=
+  mkDict [("Type", nm "Pages"), ("Parent", .ref 2 0), ("Count", .int 0), ("Kids", g), ("Contents", g),
+          ("Resources", g), ("Font", g), ("F1", g), ("Encoding", g), ("FontDescriptor", g), ("FontFile2", g),
+          ("BaseFont", nm "Helvetica"), ("Subtype", nm "Type1"), ("FontName", nm "Foo"), ("Flags", .int 4)]
+
+def nestDirect (g : Obj) : Nat → Obj
+  | 0 => g
+  | n + 1 => .arr [nestDirect g n]
+
+/-- `n` array objects b .. b+n-1, each holding a reference to the next, the last one holding `g` -/
+def nestRefObjs (b : Nat) (g : Obj) (n : Nat) : List (Nat × Obj) :=
+  (List.range n).map fun i => (b + i, .arr [if i + 1 == n then g else .ref (b + i + 1) 0])
+
+/-- `t` acyclic array objects (each lists the next) into a cycle of `c` array objects -/
+def arrLassoObjs (b t c : Nat) : List (Nat × Obj) :=
+  ((List.range t).map fun i => (b + i, Obj.arr [.ref (b + i + 1) 0])) ++
+  (List.range c).map fun i => (b + t + i, .arr [.ref (b + t + (i + 1) % c) 0])
+
+/-- the wrong-kind values for a position whose well-formed value is `g` (a stream is given as a
+    reference to the stream object 9); own objects are numbered from `b` -/
+def kindValues (b : Nat) (g : Obj) : List KV :=
+  let r (i : Nat) : Obj := .ref (b + i) 0
+  [ ⟨"null", .null, []⟩, ⟨"bool", .bool true, []⟩, ⟨"int", .int 7, []⟩, ⟨"string", .str (strBytes "ab"), []⟩,
+    ⟨"name", nm "Foo", []⟩, ⟨"emptyarr", .arr [], []⟩, ⟨"emptydict", .dict [], []⟩, ⟨"stream", .ref 9 0, []⟩,
+    -- the container one (two, three) level(s) up, acyclic
+    ⟨"arr1", nestDirect g 1, []⟩, ⟨"arr2", nestDirect g 2, []⟩, ⟨"arr3", nestDirect g 3, []⟩,
+    ⟨"arrmixed", .arr [g, .arr [g], g], []⟩,
+    ⟨"arrmixedref", .arr [g, r 0, g], [(b, .arr [g])]⟩,
+    ⟨"dictaround", dictAround g, []⟩,
+    ⟨"dictaroundref", r 0, [(b, dictAround g)]⟩ ] ++
+  ([1, 2, 3, 8, 40].map fun n => ⟨s!"nestref{n}", r 0, nestRefObjs b g n⟩) ++
+  [ -- cycles through containers
+    ⟨"selfarr", r 0, [(b, .arr [r 0])]⟩,
+    ⟨"selfarr-after-good", r 0, [(b, .arr [g, r 0])]⟩,
+    ⟨"selfarr-in-direct", .arr [g, r 0], [(b, .arr [r 0])]⟩,
+    ⟨"selfarr-nested", r 0, [(b, .arr [.arr [r 0]])]⟩,
+    ⟨"arrpair", r 0, [(b, .arr [r 1]), (b + 1, .arr [r 0])]⟩,
+    ⟨"arrpair-in-direct", .arr [g, r 0], [(b, .arr [r 1]), (b + 1, .arr [g, r 0])]⟩,
+    ⟨"arrtriple", r 0, [(b, .arr [r 1]), (b + 1, .arr [r 2]), (b + 2, .arr [r 0])]⟩,
+    ⟨"arr-link-link-arr", r 0, [(b, .arr [r 1]), (b + 1, r 2), (b + 2, r 0)]⟩ ] ++
+  ([1, 2, 3].flatMap fun t => [1, 2].map fun c => ⟨s!"arrlasso{t}+{c}", r 0, arrLassoObjs b t c⟩) ++
+  [ ⟨"selfdict", r 0, [(b, dictAround (r 0))]⟩,
+    ⟨"selfdict-in-arr", .arr [r 0], [(b, dictAround (.arr [r 0]))]⟩,
+    ⟨"dictpair", r 0, [(b, dictAround (r 1)), (b + 1, dictAround (r 0))]⟩,
+    ⟨"dict-arr", r 0, [(b, dictAround (r 1)), (b + 1, .arr [r 0])]⟩,
+    ⟨"arr-dict", r 0, [(b, .arr [r 1]), (b + 1, dictAround (r 0))]⟩ ]
+
+/-- the well-formed value of a position as it can be written inside a container -/
+def goodOf : Obj → Obj
+  | .stream _ _ => .ref 9 0
+  | t => t
+
+def kindNames : List String := (kindValues 70 .null).map (·.name)
+
+/-- the two-level tree with wrong-kind value number `i` behind `k` links at position `pos` -/
+def kindDoc (pos i k : Nat) : List (Nat × Obj) :=
+  posDoc pos fun target =>
+    let kv := (kindValues 70 (goodOf target))[i]?.getD default
+    let (v, x) := shapeObjs 50 kv.val (if k == 0 then .direct else .chain k)
+    (v, x ++ kv.objs)
+
+def kindCases : List (String × String) :=
+  (List.range posNames.length).flatMap fun pos =>
+    (List.range kindNames.length).flatMap fun i =>
+      [0, 1, 2, 3].map fun k =>
+        (s!"{posNames[pos]?.getD "?"}-{kindNames[i]?.getD "?"}-behind{k}", encCase "any" 1 (kindDoc pos i k))
 
 /-- a random long shape (chain / lasso / dangling with 0..47 links, sometimes 64/100/300) -/
 def longShapeG : G Shape := do
@@ -574,6 +678,55 @@ def shapeMutG (s : GS) : G (String × List (Nat × Obj)) := do
               ("BaseFont", nm "ABCDEF+Foo"), ("FontDescriptor", v)]))) ++ x, rfree)
   return (if (ends || free) && !(pages.isEmpty && r < 3) then "tc" else "any", objs)
 
+def getKey (objs : List (Nat × Obj)) (id : Nat) (k : String) : Option Obj :=
+  match objs.find? (·.1 == id) with
+  | some (_, .dict kvs) => dictGet (strBytes k) kvs
+  | _ => none
+
+/-- a random wrong-kind value (see `kindValues`) behind 0-3 links at a random position of a random
+    (type-correct) tree -/
+def kindMutG (s : GS) : G (String × List (Nat × Obj)) := do
+  let nodes := typedIds s.objs "Pages"
+  let pages := typedIds s.objs "Page"
+  let node ← pickL nodes
+  let page ← pickL (if pages.isEmpty then nodes else pages)
+  let anyn ← pickL (nodes ++ pages)
+  let base := s.next + 10
+  let sid := s.next + 5
+  let st : Obj := .stream [] ⟨0, 2, [113, 32]⟩
+  let font0 := mkDict [("Type", nm "Font"), ("Subtype", nm "Type1"), ("BaseFont", nm "Helvetica")]
+  let descr := mkDict [("Type", nm "FontDescriptor"), ("FontName", nm "ABCDEF+Foo"), ("Flags", .int 4)]
+  let resWith (f : Obj) : Obj := mkDict [("Font", mkDict [("F1", f)])]
+  let r ← rnd 9
+  let g : Obj := match r with
+    | 0 => (getKey s.objs node "Kids").getD (.arr [.ref page 0])
+    | 1 | 2 => .ref sid 0
+    | 3 => resWith font0
+    | 4 => mkDict [("F1", font0)]
+    | 5 => font0
+    | 6 => nm "MacRomanEncoding"
+    | 7 => descr
+    | _ => mkDict [("Type", nm "Page"), ("Parent", .ref node 0), ("Contents", .ref sid 0)]
+  -- the stream object of the family is `sid`, not 9
+  let vals := (kindValues (base + 10) g).map fun kv => if kv.name == "stream" then { kv with val := .ref sid 0 } else kv
+  let kv ← pickL vals
+  let k ← rnd 4
+  let (v, x) := shapeObjs base kv.val (if k == 0 then .direct else .chain k)
+  let fontWith (key : String) : Obj :=
+    resWith (mkDict [("Type", nm "Font"), ("Subtype", nm "TrueType"), ("BaseFont", nm "ABCDEF+Foo"), (key, v)])
+  let objs : List (Nat × Obj) :=
+    match r with
+    | 0 => setKey s.objs node "Kids" (some v)
+    | 1 => setKey s.objs page "Contents" (some v)
+    | 2 => setKey s.objs page "Contents" (some (.arr [.ref sid 0, v, .ref sid 0]))
+    | 3 => setKey s.objs anyn "Resources" (some v)
+    | 4 => setKey s.objs anyn "Resources" (some (mkDict [("Font", v)]))
+    | 5 => setKey s.objs anyn "Resources" (some (resWith v))
+    | 6 => setKey s.objs anyn "Resources" (some (fontWith "Encoding"))
+    | 7 => setKey s.objs anyn "Resources" (some (fontWith "FontDescriptor"))
+    | _ => addKid s.objs node v
+  return ("any", objs ++ [(sid, st)] ++ x ++ kv.objs)
+
 def genOne (seed : Nat) (kind : Nat) : String :=
   let wild := kind == 2
   let go : G (String × List (Nat × Obj)) := do
@@ -586,6 +739,7 @@ def genOne (seed : Nat) (kind : Nat) : String :=
     | 0 => return ("tc", s.objs)
     | 1 => do let o ← shareMut s; return ("any", o)
     | 3 => shapeMutG s
+    | 4 => kindMutG s
     | _ => do
       let o ← wildMut s
       let again ← rnd 3
@@ -639,11 +793,31 @@ def gen (seed n : Nat) (tier : String) (emit : String → IO Unit) : IO Unit := 
   for c in smallCases (if tier == "thorough" then 1 else 7) do emit c
   for (_, c) in shapeCases do emit c
   for (_, c) in longCases (tier == "thorough") do emit c
+  for (_, c) in kindCases do emit c
   for i in List.range n do
     emit (genOne (seed * 1000003 + i) (if i % 6 < 2 then 0 else if i % 6 < 3 then 1 else if i % 6 < 5 then 2 else 3))
+  -- wrong-kind values at random positions of random trees: n/5 further cases (own seeds)
+  for i in List.range (n / 5) do
+    emit (genOne (seed * 1000003 + n + i) 4)
+
+mutual
+/-- does some array inside the value list an array, directly or as a reference to a defined array
+    object (a container where an element is expected)? -/
+partial def arrInArr (defs : Defs) : Obj → Bool
+  | .arr xs =>
+    xs.any fun x =>
+      (match x with
+       | .arr _ => true
+       | .ref a g => (match PageTreeSpec.defOf defs (a, g) with | some (.arr _) => true | _ => false)
+       | _ => false) || arrInArr defs x
+  | .dict kvs => kvs.any fun kv => arrInArr defs kv.2
+  | .stream kvs _ => kvs.any fun kv => arrInArr defs kv.2
+  | _ => false
+end
 
 /-- non-trivial: the expected DOM has >= 3 records including an inner node, or the graph contains
-    a top-level reference object (a link of a reference chain or a loop) -/
+    a top-level reference object (a link of a reference chain or a loop), or an array that lists an
+    array (directly or through a reference to an array object) -/
 def nontrivial (line : String) : Bool :=
   match decCase line with
   | none => false
@@ -655,7 +829,7 @@ def nontrivial (line : String) : Bool :=
         match PageTreeSpec.specDom c.defs cat with
         | none => false
         | some d => d.recs.length ≥ 3 && d.recs.any fun | .node .. => true | _ => false
-    hasLink || big
+    hasLink || big || c.defs.any fun (_, o) => arrInArr c.defs o
 
 def driver : PropDriver := { gen, model, judge, nontrivial }
 end Driver.C11
